@@ -4,6 +4,9 @@
 // compiled only under the build tag "verif").
 package metadata
 
+// Every function under contract in this package also serves the properties that depend on the whole package.
+//@ package-props C14 C15
+
 // The three value maps are only touched under mu.
 //@ monitor Metadata.mu protects valuesInt, valuesBool, valuesStr invariant MetaInv
 //@ pred MetaInv(m *Metadata) := m.valuesInt != nil && m.valuesBool != nil && m.valuesStr != nil
